@@ -25,7 +25,7 @@ from checks.c01 import C01World
 from dsmc.commitworld import outcome_of
 from dsmc.env import ENV, HINT_NAME
 from dsmc.report import Report, pmap
-from dsmc.sched import DONE, Execution, Explorer
+from dsmc.sched import DONE, PARKED, Execution, Explorer
 from dsmc.worlds import root_actor
 
 LEASE_JUMP = 61.0
@@ -155,6 +155,11 @@ class C08World(C01World):
                     and a.state != DONE and (not self.cfg.get("pause_only") or a.name in self.cfg["pause_only"])
                     and self.lock_variant == "cas" and self._holds_lock(a.name)):
                 opts.append(("partition-from-lock", a.name))
+            if (self.max_partitions and a is ex.last and a.state == PARKED and a.wake is not None and not a.frozen
+                    and ENV.clock < a.wake):
+                # the committer that was running sleeps (retry back-off) and nobody else gets scheduled meanwhile:
+                # time simply passes.  Without this option "the sleeper continues" would cost a preemption.
+                opts.append(("sleep-elapses", a.name))
             if a.frozen:
                 opts.append(("resume", a.name))
             elif a.state != DONE and ex.jumps < self.max_pauses and a.steps > 0 and \
@@ -173,6 +178,11 @@ class C08World(C01World):
         kind, name = opt
         if kind == "partition-from-lock":
             self.partitioned.add(name)
+            return
+        if kind == "sleep-elapses":
+            for a in ex.actors:
+                if a.name == name and a.wake is not None:
+                    ENV.clock = max(ENV.clock, round(a.wake, 6))
             return
         for a in ex.actors:
             if root_actor(a.name) == name:
